@@ -205,15 +205,35 @@ func checkC14(r *Run) {
 			ia = x
 		case *ssa.Alloc:
 			// local copy: find the store `*local = *(&handlers[i])` reaching; all stores must be from the same IndexAddr
-			for _, s := range c.cellStores[x] {
-				if l2, ok := s.Val.(*ssa.UnOp); ok {
-					if i2, ok := l2.X.(*ssa.IndexAddr); ok {
-						if ia != nil && ia != i2 {
-							return nil, false
+			// (a copy of a copy — the element handed to a helper by value — is followed to the first one)
+			var from func(a *ssa.Alloc, depth int) bool
+			from = func(a *ssa.Alloc, depth int) bool {
+				if depth > 6 || c.escapesOtherwise(a) {
+					return false
+				}
+				for _, s := range c.cellStores[a] {
+					l2, ok := s.Val.(*ssa.UnOp)
+					if !ok || l2.Op != token.MUL {
+						return false
+					}
+					switch y := l2.X.(type) {
+					case *ssa.IndexAddr:
+						if ia != nil && ia != y {
+							return false
 						}
-						ia = i2
+						ia = y
+					case *ssa.Alloc:
+						if !from(y, depth+1) {
+							return false
+						}
+					default:
+						return false
 					}
 				}
+				return true
+			}
+			if !from(x, 0) {
+				return nil, false
 			}
 		}
 		if ia == nil {
@@ -241,7 +261,16 @@ func checkC14(r *Run) {
 		if iff == nil {
 			continue
 		}
-		k, ok := iff.Cond.(*ssa.Call)
+		// `if h.filter.Match(…) {…}` or its negation (`if !matched { skip }`): the edge on which the filter matched
+		cond, onEdge := iff.Cond, 0
+		for {
+			n, isNot := cond.(*ssa.UnOp)
+			if !isNot || n.Op != token.NOT {
+				break
+			}
+			cond, onEdge = n.X, 1-onEdge
+		}
+		k, ok := cond.(*ssa.Call)
 		if !ok || matchM == nil || c.StaticCalleeOf(&k.Call) != matchM {
 			continue
 		}
@@ -250,9 +279,9 @@ func checkC14(r *Run) {
 		if !okF || fIdx != hIdx || !isT || c.Resolve(tb) != ssa.Value(serve.Params[1]) {
 			continue
 		}
-		if DominatedByEdge(serve, inv, b, 0, PathQ{}) {
+		if DominatedByEdge(serve, inv, b, onEdge, PathQ{}) {
 			// exact: on the true edge the invoke happens on every path before the next iteration
-			first := b.Succs[0].Instrs[0]
+			first := b.Succs[onEdge].Instrs[0]
 			if first == inv {
 				guard = true
 			} else if _, skip := CanReach(serve, first, func(x ssa.Instruction) bool { return realExit(x) || x == ssa.Instruction(k) }, PathQ{BlockInstr: func(x ssa.Instruction) bool { return x == inv }}); !skip {
